@@ -16,6 +16,7 @@ From GE Require Import Model.Roles.
 From GE Require Import Model.Unblind.
 From GE Require Import Model.Blech32 Model.AddrCodecs Model.Address.
 From GE Require Import Model.Issuance.
+From GE Require Import Lib.Heap Lib.Sched Model.Alias Model.FreeList.
 Extraction Language OCaml.
 Extraction "model.ml"
   Byte.of_N Byte.to_N N.of_nat N.to_nat Z.of_N
@@ -51,4 +52,9 @@ Extraction "model.ml"
   Addr.from_base58 Addr.to_base58 Addr.from_base58_conf Addr.to_base58_conf Addr.from_bech32 Addr.to_bech32
   Addr.from_blech32 Addr.to_blech32 Addr.network_for_address Addr.decode_type Addr.is_confidential
   Addr.to_output_script Addr.from_confidential Addr.to_confidential Addr.pay_address
-  Addr.script_p2pkh Addr.script_p2sh Addr.script_segwit.
+  Addr.script_p2pkh Addr.script_p2sh Addr.script_segwit
+  arr rd rd_cap wr go_policy exact_policy wf_sliceb
+  Al.compute_asset Al.compute_token Al.final_vbf_values Al.range_proof_message Al.b32_encode Al.b32_decode
+  Al.to_base58_conf Al.to_blech32 Al.tap_script_sigs Al.tap_leaf_scripts Al.get_utxo Al.reverse_bytes
+  Al.value_from_bytes Al.asset_hash_from_bytes Al.txid_from_bytes Al.ser_vector Al.copy_all Al.read_all Al.pkg_globals
+  FL.run_seq FL.run_sched FL.init FL.flist_cap.
